@@ -49,6 +49,10 @@ def run(ctx):
         "decoy generation")
     _shuffle(ctx, prog.func(FA + "_shuffle_proteins"))
     _make(ctx, prog.func(FA + "make_decoys"))
+    # names and sequences of the targets are those of the input entries
+    # (shared with C16a)
+    from .c16 import entry_boundaries
+    entry_boundaries(ctx, "C18c-entry-boundaries")
 
 
 def _neg_one(t):
